@@ -67,7 +67,7 @@ static econf_file *build_object(Src &s, std::string &desc, std::vector<std::pair
     int n = 1 + (int)s.below(14);
     desc = "setters:";
     for (int i = 0; i < n; i++) {
-      const SecArg &sa = SEC_ARGS[s.below(8)];
+      const SecArg &sa = SEC_ARGS[s.below(N_SEC_ARGS)];
       const std::string &key = hist_keys()[s.below((uint32_t)hist_keys().size())];
       std::string v = s.chance(60) ? tempting_value(s) : gen_text(s, make_alphabet("#"), 1 + (int)s.below(8));
       econf_setStringValue(kf, sa.arg, key.c_str(), v.c_str());
@@ -80,7 +80,7 @@ static econf_file *build_object(Src &s, std::string &desc, std::vector<std::pair
     int n = (int)s.below(8);
     desc = "merge of:";
     for (int i = 0; i < n; i++) {
-      const SecArg &sa = SEC_ARGS[s.below(8)];
+      const SecArg &sa = SEC_ARGS[s.below(N_SEC_ARGS)];
       std::string v = tempting_value(s);
       bool ina = s.chance(50);
       econf_setStringValue(ina ? a : b, sa.arg, hist_keys()[s.below(4)].c_str(), v.c_str());
@@ -120,7 +120,7 @@ static void run(Src &s) {
       sec = k.first;
       key = k.second;
     } else {
-      sec = SEC_ARGS[s.below(8)].norm;
+      sec = SEC_ARGS[s.below(N_SEC_ARGS)].norm;
       key = s.chance(50) ? "no-such-key" : hist_keys()[s.below((uint32_t)hist_keys().size())];
     }
     std::string sarg_s = sec;
